@@ -4,7 +4,7 @@ import vlib, conc
 def run(res, a):
     if a.replay:
         return conc.replay(res, "C09", a.replay)
-    vlib.proof_stage(res, "C09")
+    vlib.proof_stage(res, "C09", files=["C09abandon"])
     envs = [None, {"VERIF_RECLAIM_ON_FREE": "1"}, {"VERIF_NO_ARENA": "1"}, {"VERIF_NO_ARENA": "1", "VERIF_RECLAIM_ON_FREE": "1"}]
     conc.run_conc(res, "C09", a.seed, a.tier, envs=envs if a.tier == "thorough" else envs[:3])
     res.cov["rule"] = ("scheduler harness, mode exit: virtual threads terminate through mi_thread_done at random points while blocks they allocated are "
